@@ -90,8 +90,31 @@ NEEDS3 = {
  "C20-3": ("Tarjan's inStack compares DFS indexes", "a cross edge into a finished sibling subtree, under a particular iteration order"),
  "C20-4": ("KahnSort panics only if Cycles() is non-empty", "a graph whose only residual cycles are self-loops"),
 }
+NEEDS4 = {
+ "C01-5": ("a typed argument without value takes state.TypedValue[type] (keyed by Go type, ignoring subtype)", "two different non-empty subtypes of one type in one call; the affected parameter belongs to a multi-input converter and is not the one its path enters through"),
+ "C01-6": ("converter outputs registered from the ordered value list while outputValues still maps through the type-keyed map", "a converter with two type-only outputs of one type differing in subtype; a consumer of the one not declared last"),
+ "C02-5": ("Func.argBuilder merges defaults and call options with append(f.callOpts, opts...)", "default options with spare capacity and two concurrent calls, one satisfiable and one not"),
+ "C02-6": ("after a converter's arguments were reached, absent typed inputs are back-filled from state.TypedValue[type]", "a converter with one derivable and one underivable (pruned) typed input that shares its Go type with a value present under another subtype: it runs with a missing argument and the call succeeds"),
+ "C03-5": ("the root edge of zero-argument converters weighs 0 instead of 1", "a type-only parameter with its exact Typed input and a provider returning a *named* value of that type: an exact tie, decided by iteration order"),
+ "C03-6": ("Func.argBuilder merges defaults and call options with append(f.callOpts, opts...)", "default options with spare capacity and overlapping calls"),
+ "C04-5": ("an *ErrArgumentUnsatisfied coming out of a nested reach is replaced by a new one naming the converter", "a multi-input converter whose secondary argument is produced by a failing converter returning a bare *ErrArgumentUnsatisfied"),
+ "C04-6": ("a converter's error is consulted only if NumOut != number of output values", "a failing converter whose single struct (or pointer-struct / BuildFunc) output has exactly two value fields"),
+ "C05-5": ("a break after the first edge in the subtype-fallback loops", "a type-only parameter without subtype satisfied only through the fallback, two subtyped outputs of which one is underivable, and an unlucky order"),
+ "C05-6": ("generators are only offered vertices that already hold a value", "a generated converter whose trigger value is the output of a static converter"),
+ "C06-5": ("the AssignableTo guard becomes 'same type or the argument is an interface'", "Redefine through a converter reached by a named input that also has an interface-typed type-only field, forced by FilterInput"),
+ "C06-6": ("the per-argument graph copy before the name discount is dropped", "a named and a type-only parameter of one type, the named one supplied only with a subtype, resolved first (order-dependent)"),
+ "C08-5": ("the function returned by Redefine appends onto the caller's option slice", "redefine twice from slices sharing a backing array, call the first, then the second"),
+ "C08-6": ("FilterOutput skips outputs whose type implements error", "an output of a concrete error type (not the stripped final error) and a rejecting output filter"),
+ "C11-5": ("the run-once lock is not held while the body runs", "two goroutines first needing the function with overlapping executions"),
+ "C11-6": ("the memo is the raw output slice and 'executed' is decided by out != nil", "a run-once function without results, as a target, called twice"),
+ "C12-5": ("Func.argBuilder merges defaults and call options with append(f.callOpts, opts...)", "default options with spare capacity and concurrent calls with differing options"),
+ "C12-6": ("the run-once lock is held only to read and to store the memo", "goroutines reaching a shared FuncOnce converter during its first execution (no data race: only the schedule explorer's body count / serial-order oracle sees it)"),
+ "C13-5": ("converters whose function vertex is already in the graph are skipped and dropped from the reported list", "two converters of one Go type, or a converter of the target's type, and a hopeless parameter"),
+ "C13-6": ("pruned requirements are reported through f.input.Named/Typed (typed map keyed by type only)", "a target with two type-only parameters of one type differing in subtype, the earlier one hopeless"),
+}
 NEEDS.update(NEEDS2)
 NEEDS.update(NEEDS3)
+NEEDS.update(NEEDS4)
 SRC = {}
 for k in NEEDS2:
     prop, n = k.split("-")
@@ -100,6 +123,10 @@ for k in NEEDS2:
 for k in NEEDS3:
     prop, n = k.split("-")
     SRC[k] = ("/tmp/seed3/%s" % prop, str(int(n) - 2), "second round: asked for changes needing two or three conditions at once")
+
+for k in NEEDS4:
+    prop, n = k.split("-")
+    SRC[k] = ("/tmp/seed4/%s" % prop, str(int(n) - 4), "third round: same brief as the second, fresh agents")
 
 def parse(path):
     res = {}
@@ -124,6 +151,8 @@ for f in sys.argv[1:]:
     off = 0
     if f.endswith(":+2"):
         f, off = f[:-3], 2
+    if f.endswith(":+4"):
+        f, off = f[:-3], 4
     for k, v in parse(f).items():
         if off:
             pp, nn = k.split("-")
@@ -172,7 +201,7 @@ for key in sorted(NEEDS):
 
 with open(out + "/RESULTS.md", "w") as f:
     f.write("# Seeded property-breaking changes: which checks catch which\n\n")
-    f.write("Ids <prop>-1/-2 are the first round, -3/-4 the second round (agents asked for changes that need two or three conditions at once). ")
+    f.write("Ids <prop>-1/-2 are the first round, -3/-4 the second round (agents asked for changes that need two or three conditions at once), -5/-6 a third round with the same brief. ")
     f.write("Each change was written by a fresh sub-agent that saw only the text of one property and a scratch worktree (nothing from /verif). `confirmed` = I re-ran, in my own scratch worktree: the demo passes on the clean tree, the existing suite passes with the change, the demo fails with the change. Checks were run with `./seedeval.sh` (scratch worktree + `VERIF_REPO`), i.e. the registered quick commands against a copy of the library carrying the change.\n\n")
     f.write("| id | change | needs | confirmed | caught by (quick) | run but silent |\n|---|---|---|---|---|---|\n")
     for key, m in rows:
